@@ -37,3 +37,20 @@ Fixpoint split_blocks (fuel : nat) (n : nat) (l : bytes) : list bytes :=
 
 Definition redirect_blocks (content : bytes) : list bytes :=
   split_blocks (length content) (Z.to_nat cli_stdin_block) content.
+
+(* The three input modes as a whole: reading (above) followed by handing the text to
+   run_source.  `Some t`: run_source lexes exactly t (t = None: the input was refused as not
+   UTF-8).  The outer None stands for "the translator could not see that the mode hands the
+   text it read on unchanged" (generated flags: no slicing, stripping, trimming, replacing ...
+   between the read and Lexer::new). *)
+Definition handed_on (flag : bool) (t : option bytes) : option (option bytes) :=
+  if flag && cli_run_source_text_passthrough then Some t else None.
+
+Definition file_mode (content : bytes) : option (option bytes) :=
+  handed_on cli_file_text_passthrough (file_source content).
+Definition eval_mode (content : bytes) : option (option bytes) :=
+  handed_on cli_eval_text_passthrough (file_source content).
+Definition stdin_mode (blocks : list bytes) : option (option bytes) :=
+  handed_on cli_stdin_text_passthrough (stdin_source blocks).
+(* the library pipeline is given the text itself *)
+Definition library_text (content : bytes) : option (option bytes) := Some (file_source content).
